@@ -530,6 +530,9 @@ func (ex *Exec) applyContract(fr *Frame, c *FuncContract, callee *ssa.Function, 
 			ex.checkImplements(fr, r, args, pnames, st)
 			continue
 		}
+		if len(r.Scope) > 0 && !ex.inScope(fr, r.Scope) {
+			continue
+		}
 		env.goal = true
 		g := env.Bool(r.Expr)
 		env.goal = false
@@ -959,4 +962,16 @@ func (ex *Exec) dispatch(fr *Frame, site ssa.Instruction, common *ssa.CallCommon
 		}
 	}
 	return true
+}
+
+func (ex *Exec) inScope(fr *Frame, scope []string) bool {
+	for f := fr; f != nil; f = f.caller {
+		n := ex.vc.prog.funcName(f.fn)
+		for _, sc := range scope {
+			if strings.Contains(n, sc) {
+				return true
+			}
+		}
+	}
+	return false
 }
